@@ -70,7 +70,7 @@ func safeEncode(p *codec.WKProto, f frame.Frame, v uint8) (out encOutcome) {
 }
 
 // DecodeCoq runs DecodeFrame and renders the outcome as a [dec_result] term.
-func decodeCoq(p *codec.WKProto, data []byte, v uint8) (term string, class string) {
+func decodeCoq(it *wkp.Interner, p *codec.WKProto, data []byte, v uint8) (term string, class string) {
 	defer func() {
 		if r := recover(); r != nil {
 			term, class = "DPanic", "dec-panic"
@@ -87,7 +87,7 @@ func decodeCoq(p *codec.WKProto, data []byte, v uint8) (term string, class strin
 		return "DNeed", "dec-need"
 	}
 	fi, m := wkp.FromFrame(f)
-	return vh.App("DFrame", fi.Coq(), m.Coq(), vh.N(uint64(n))), "dec-ok"
+	return vh.App("DFrame", it.Ref(fi.Coq()), m.Coq(), vh.N(uint64(n))), "dec-ok"
 }
 
 func setJunk(f frame.Frame) {
@@ -136,6 +136,8 @@ func run(in input) vh.Result {
 	enc := safeEncode(proto, f, in.V)
 
 	var encTerm, decTerm, class string
+	it := &wkp.Interner{}
+	inTerm := it.Ref(in.F.Coq())
 	switch {
 	case enc.panicked:
 		encTerm, decTerm, class = "EncPanic", vh.None(), "enc-panic"
@@ -144,7 +146,7 @@ func run(in input) vh.Result {
 	default:
 		encTerm = vh.App("EncOk", wkp.CoqBytes(enc.bytes))
 		data := append(append([]byte(nil), enc.bytes...), tail...)
-		decTerm, class = decodeCoq(proto, data, in.V)
+		decTerm, class = decodeCoq(it, proto, data, in.V)
 		decTerm = vh.Some(decTerm)
 	}
 	// the encoder must not change its argument
@@ -156,7 +158,7 @@ func run(in input) vh.Result {
 	outcome := class
 	if class == "dec-ok" {
 		outcome = "norm"
-		if strings.Contains(decTerm, in.F.Coq()) {
+		if strings.Contains(decTerm, " "+inTerm+" ") {
 			outcome = "exact"
 		}
 	}
@@ -168,7 +170,7 @@ func run(in input) vh.Result {
 		}
 	}
 	return vh.Result{
-		Coq: vh.App("C22Case", vh.N(uint64(in.V)), in.F.Coq(), vh.Hex(tail), vh.N(uint64(size)), encTerm, decTerm, vh.B(unchanged)),
+		Coq: it.Wrap(vh.App("C22Case", vh.N(uint64(in.V)), inTerm, vh.Hex(tail), vh.N(uint64(size)), encTerm, decTerm, vh.B(unchanged))),
 		Obs: map[string]any{"size": size, "enc": hex.EncodeToString(enc.bytes), "enc_err": fmt.Sprint(enc.err),
 			"enc_panic": enc.panicked, "dec": decTerm},
 		Class:   cls,
